@@ -17,10 +17,10 @@ SameValue(x, y) == /\ x.t = y.t
                         [] x.t \in PtrTypes -> x.id = y.id
                         [] x.t = "const char*" -> x.s = y.s
                         [] x.t = "double" -> XSame(x.v, y.v)
-                        [] x.t = "obj" -> x.c = y.c
+                        [] x.t = "obj" -> x.c = y.c /\ ("tn" \in DOMAIN y => x.tn = y.tn)    \* (the C tagged union carries no type name)
                         [] OTHER -> x = y
 \* the expectation stays inside the domain of the property
-InDomain(s, e) == Unambiguous(WouldBe(s, e))
+InDomain(s, e) == CopiersPresent(s, e) /\ Unambiguous(WouldBe(s, e))
 
 TNext ==
     \/ Is("expect") /\ InDomain(E.s, E.e) /\ Expect(E.s, E.e) /\ res'.k = E.r
@@ -41,6 +41,9 @@ TNext ==
     \/ Is("enable") /\ Enable /\ res'.k = E.r
     \/ Is("ignoreothers") /\ IgnoreOtherCalls /\ res'.k = E.r
     \/ Is("strict") /\ StrictOrder(E.s) /\ res'.k = E.r
+    \/ Is("installcmp") /\ E.md \in CmpModes /\ InstallComparator(E.s, E.tn, E.md) /\ res'.k = E.r
+    \/ Is("installcpy") /\ E.md \in CpyModes /\ InstallCopier(E.s, E.tn, E.md) /\ res'.k = E.r
+    \/ Is("removeall") /\ RemoveAll(E.s) /\ res'.k = E.r
     \* the end of the test: the verdict, and (inside a real test) how many failures the test recorded
     \/ Is("end") /\ End /\ res'.k = E.r /\ (E.mode # "rec" => EndCountOK(E.r, E.vcount))
 \* executions are concatenated with reset lines (cleared mock)
@@ -67,6 +70,9 @@ PNext ==
     \/ Is("enable") /\ Enable
     \/ Is("ignoreothers") /\ IgnoreOtherCalls
     \/ Is("strict") /\ StrictOrder(E.s)
+    \/ Is("installcmp") /\ InstallComparator(E.s, E.tn, E.md)
+    \/ Is("installcpy") /\ InstallCopier(E.s, E.tn, E.md)
+    \/ Is("removeall") /\ RemoveAll(E.s)
     \/ Is("end") /\ End
 PSpec == (Init /\ l = 1) /\ [][PNext \/ TReset]_tvars
 Predict == (l > 1 /\ l - 1 >= atoi(IOEnv.FROM_LINE_N)) => PrintT(<<"BEH", ToJson([line |-> l - 1, op |-> last, predicted |-> res])>>)
